@@ -445,6 +445,10 @@ Inductive case :=
   (* one pass of the real HMF.iterate loop: state at the first step, witnesses of normbase(), states recorded at the
      following steps and at the end of the pass *)
 | CHmfIter (nonneg : bool) (s w : mat) (eps : option Q) (nw : vec) (st0 : state) (recs : list state)
+  (* the same pass judged by the certified clauses ALONE (no exact re-computation of the updates): used for runs too
+     large for exact arithmetic on full doubles.  recs = states after the coefficient update, after the component
+     update, ..., at the end of the pass *)
+| CHmfIterS (nonneg : bool) (s w : mat) (eps : option Q) (st0 : state) (recs : list state)
   (* one inner pass of pca_solve: pres = derived variables of the pcomp object of this pass (oracle, judged separately),
      inext = the array handed to pcomp in the next pass (transposed back), iacoeff = the returned coefficients (last pass) *)
 | CPcaStep (nkeep : nat) (newflux ivar mask pres : mat) (inext : option mat) (iacoeff : option mat).
@@ -522,6 +526,7 @@ Definition run_case (c : case) : Z :=
   | CHmfIter nonneg s w eps nw st0 recs =>
       (b2z 1 (hmf_trace s w eps nw (hmf_iter_steps nonneg) recs st0)
        + b2z 2 (forallb id (iter_clauses nonneg s w eps st0 recs)))%Z
+  | CHmfIterS nonneg s w eps st0 recs => b2z 2 (forallb id (iter_clauses nonneg s w eps st0 recs))
   | CPcaStep nkeep newflux ivar mask pres inext iacoeff =>
       b2z 1 (match pca_step nkeep newflux ivar mask pres with
              | Some res =>
@@ -539,6 +544,7 @@ Definition diag_case (c : case) : list bool :=
   | CHmf s w a g eps ia ig iann ignn inorm ibad ibad_a ibad_g => hmf_clauses s w a g eps ia ig iann ignn ibad ibad_a ibad_g
   | CPca newflux newivar nkeep iflux iacoeff ieval iusemask ioutmask => pca_clauses tol5 newflux newivar nkeep iflux iacoeff ieval iusemask ioutmask
   | CHmfIter nonneg s w eps nw st0 recs => iter_clauses nonneg s w eps st0 recs
+  | CHmfIterS nonneg s w eps st0 recs => iter_clauses nonneg s w eps st0 recs
   | CPcaStep _ _ _ _ _ _ _ => []
   end.
 
